@@ -168,6 +168,8 @@ func features(in In) []string {
 			f = append(f, "listed-name-absolute")
 		case strings.Contains(n, "/"):
 			f = append(f, "listed-name-has-directory")
+		case n == "." || n == "":
+			f = append(f, "listed-name-is-a-directory-reference")
 		}
 	}
 	sort.Strings(f)
@@ -672,7 +674,9 @@ func Run(r *mc.Run) {
 	plain := [][]string{{}, {"hello_1.0.orig.tar.gz"}, {"hello_1.0.orig.tar.gz", "hello_1.0-1.debian.tar.xz"}, {"hello_1.0.orig.tar.gz", "hello_1.0-1.debian.tar.xz", "hello_1.0.orig.tar.gz.asc"}}
 	shapes := []string{"sub/x.tar", "../x.tar", "../../x.tar", "/abs/x.tar", "./x.tar",
 		// sibling directories whose names merely START with the name of the control file's directory / of the destination
-		"../src-keys/x.tar", "../srcx.tar", "../dst-old/x.tar", "sub/../../src2/x.tar"}
+		"../src-keys/x.tar", "../srcx.tar", "../dst-old/x.tar", "sub/../../src2/x.tar",
+		// names that ARE a directory reference: the upload's directory itself, its parent, a subdirectory
+		"..", ".", "./", "../", "sub", "sub/", "../.."}
 	// alphabet audit: names and numbers a change introduced into the code become file names, file counts and file sizes
 	for _, t := range gen.AuditStrings(func(s string) bool { return gen.OneLine(s) && !strings.ContainsAny(s, " \t") }, 3) {
 		shapes = append(shapes, t, "x"+t, t+".tar", "../"+t)
